@@ -13,6 +13,17 @@ import numpy as np
 class _Rewrite(ast.NodeTransformer):
     """forall/exists/implies/old/ite -> plain python with lazy evaluation."""
 
+    approx = False  # mode 'real' contracts: float comparisons up to rounding (the proof is about reals)
+
+    def visit_Compare(self, node):
+        self.generic_visit(node)
+        if not self.approx or len(node.ops) != 1:
+            return node
+        fn = {ast.Eq: "__eq", ast.LtE: "__le", ast.GtE: "__ge", ast.Lt: "__lt", ast.Gt: "__gt", ast.NotEq: None}.get(type(node.ops[0]))
+        if fn is None:
+            return node
+        return ast.Call(func=ast.Name(id=fn, ctx=ast.Load()), args=[node.left, node.comparators[0]], keywords=[])
+
     def visit_Call(self, node):
         self.generic_visit(node)
         f = node.func.id if isinstance(node.func, ast.Name) else None
@@ -53,9 +64,11 @@ def _bool(n):
     return ast.Call(func=ast.Name(id="bool", ctx=ast.Load()), args=[n], keywords=[])
 
 
-def compile_clause(expr):
+def compile_clause(expr, approx=False):
     tree = ast.parse(expr, mode="eval")
-    tree = _Rewrite().visit(tree)
+    rw = _Rewrite()
+    rw.approx = approx
+    tree = rw.visit(tree)
     ast.fix_missing_locations(tree)
     return compile(tree, "<clause>", "eval")
 
@@ -74,8 +87,20 @@ def base_env():
             "float": float, "True": True, "False": False, "NULL": -1}
 
 
-def eval_clause(expr, env):
-    code = compile_clause(expr)
+def _close(a, b):
+    if isinstance(a, (bool, np.bool_)) or isinstance(b, (bool, np.bool_)):
+        return bool(a) == bool(b)
+    if isinstance(a, (int, np.integer)) and isinstance(b, (int, np.integer)):
+        return a == b
+    a, b = float(a), float(b)
+    return a == b or abs(a - b) <= 1e-9 * max(abs(a), abs(b)) + 1e-12
+
+
+def eval_clause(expr, env, approx=False):
+    code = compile_clause(expr, approx)
+    env = dict(env)
+    env.update({"__eq": _close, "__le": lambda a, b: a <= b or _close(a, b), "__ge": lambda a, b: a >= b or _close(a, b),
+                "__lt": lambda a, b: a < b or _close(a, b), "__gt": lambda a, b: a > b or _close(a, b)})
     with np.errstate(all="ignore"):
         g = dict(env)
         g["__builtins__"] = {}
